@@ -368,6 +368,17 @@ def execute(case, scratch):
             else:
                 direct = in_proc(root, ctlp, lambda: load_file_direct(cmd['kind'], os.path.join(root, target)), reads=cmd.get('reads'))
             if 'ok' in direct:
+                if cmd['class'] in ('EACCES', 'EIO') and cmd['kind'] in ('rules', 'views'):
+                    # the operating system refuses to hand out the file's content (for good: every attempt fails): whatever the
+                    # loader returned, it is not what the file says - "a rules file that cannot be loaded is reported ... rather
+                    # than treated as containing no rules" starts here
+                    violations.append({'invariant': 'REP',
+                                       'signature': {'kind': cmd['kind'], 'observer': 'loader', 'class': cmd['class']},
+                                       'witness': 'every read of %s fails with %s, yet the loader returns normally (a %s without the file\'s content)'
+                                                  % (target, cmd['class'], 'rule set' if cmd['kind'] == 'rules' else 'views configuration'),
+                                       'schedule': {'property': ID, 'case': dict(case, files=[], commands=[cmd])}})
+                    log.append(['cmd-loader-accepts-unreadable', cmd['class']])
+                    continue
                 count['command_skipped_loader_accepts'] = count.get('command_skipped_loader_accepts', 0) + 1
                 log.append(['cmd-skip', cmd['class']])
                 continue
